@@ -24,6 +24,7 @@ pub enum Sub {
     Closure(usize, String, String),
     Loop(usize, Option<String>, String),
     LoopStart(usize, String),
+    ForToLoop(usize, String),
     Before(String, String),
     After(String, String),
     Replace(String, String),
@@ -134,6 +135,10 @@ pub fn parse(text: &str, cdir: &str) -> Result<Vec<Dir>, String> {
                         let n: usize = parts.next().and_then(|s| s.parse().ok()).ok_or(format!("bad @@.loop at line {}", i))?;
                         let it = parts.next().and_then(|s| s.strip_prefix("iter=")).map(|s| s.to_string());
                         take.subs.push(Sub::Loop(n, it, b));
+                    }
+                    "for-to-loop" => {
+                        let n: usize = arg.trim().parse().map_err(|_| format!("bad @@.for-to-loop at line {}", i))?;
+                        take.subs.push(Sub::ForToLoop(n, b));
                     }
                     "loop-start" => {
                         let n: usize = arg.trim().parse().map_err(|_| format!("bad @@.loop-start at line {}", i))?;
